@@ -160,6 +160,20 @@ type Dialer interface {
 }
 """
 flagsets("dirname", "adv/dirname", ["Dialer"])
+# ... and spelled out under the package's own name, which differs from the directory (what goimports writes)
+FILES["adv/dirname2/a.go"] = """package dirname2
+
+import (
+	apiclient "example.com/m/dep/named/client"
+	notdir "example.com/m/dep/named/dir"
+)
+
+type Dialer interface {
+	Dial(addr string) (*apiclient.Conn, error)
+	Use(t notdir.T, c apiclient.T)
+}
+"""
+flagsets("dirname2", "adv/dirname2", ["Dialer"])
 
 # ---- numbering, suffixes, names equal to qualifiers ----
 FILES["adv/naming/a.go"] = """package naming
